@@ -59,6 +59,10 @@ def run_case(case):
             obs['write-raised:%s:%s' % (run.wout[1], run.wout[2][:50])] = obs.get('write-raised', 0) + 1
             return
         oracle.check_c16(run)
+        if run.stage_error is not None:
+            e_ = run.stage_error[1]
+            vio.append({'prop': PROP, 'kind': 'records-undecodable', 'mech': 'undecodable:' + getattr(e_, 'kind', type(e_).__name__),
+                        'detail': f'the written file does not decode, the payloads cannot be recovered: {e_}'})
         for k, v in run.obs.items():
             obs[k] = obs.get(k, 0) + v
         if any(len(r.segments) > 1 for r in (run.records or []) if not r.explicit and r.type == 1):
